@@ -234,7 +234,7 @@ func (u *Unit) binop(st *State, fr *Frame, in *ssa.BinOp) Val {
 			}
 			al := u.name(a.Len, "sl")
 			aA, bA := a.Arr, b.Arr
-			arr := MkArr(func(j *Term) *Term { return Ite(Lt(j, al), Select(aA, j), Select(bA, Sub(j, al))) })
+			arr := u.mkArr(func(j *Term) *Term { return Ite(Lt(j, al), Select(aA, j), Select(bA, Sub(j, al))) })
 			return StrV{Arr: arr, Len: Add(al, b.Len)}
 		default:
 			// ordering comparisons on strings: not modelled
@@ -423,7 +423,7 @@ func (u *Unit) convert(st *State, fr *Frame, in *ssa.Convert) Val {
 			}
 			off := u.name(s.Off, "o")
 			rC := r.C
-			return StrV{Arr: MkArr(func(j *Term) *Term { return Select(rC, Add(off, j)) }), Len: s.Len}
+			return StrV{Arr: u.mkArr(func(j *Term) *Term { return Select(rC, Add(off, j)) }), Len: s.Len}
 		}
 		if isIntKind(from) {
 			l := u.newInt("runelen")
@@ -607,7 +607,7 @@ func (u *Unit) sliceOp(st *State, fr *Frame, in *ssa.Slice) Val {
 		}
 		lon := u.name(lo, "lo")
 		xA := xv.Arr
-		return StrV{Arr: MkArr(func(j *Term) *Term { return Select(xA, Add(lon, j)) }), Len: Sub(hi, lo)}
+		return StrV{Arr: u.mkArr(func(j *Term) *Term { return Select(xA, Add(lon, j)) }), Len: Sub(hi, lo)}
 	case PtrV:
 		at := in.X.Type().Underlying().(*types.Pointer).Elem().Underlying().(*types.Array)
 		n := at.Len()
